@@ -228,6 +228,7 @@ type vkRun struct {
 	FailuresFirst []cache.VerifFailure // failure store right after the first ask
 	Failures      []cache.VerifFailure // ... and at the end of the run
 	Log           []authsim.Query
+	LogFirst      []authsim.Query // the upstream log at the first ask's quiescence (= its request tree)
 	Disturbed     bool
 	Unscript      []string
 }
@@ -301,6 +302,7 @@ func (w *vkWorld) runOnce(cs vkCase, second bool) vkRun {
 		return run
 	}
 	run.FailuresFirst = pl.Failures()
+	run.LogFirst = w.sim.Log()
 	if second {
 		a := w.ask(pl, tp, vkClient{OPT: true, DO: true})
 		run.Second = &a
